@@ -173,7 +173,10 @@ func checkC15(c any, r *Rec) error {
 		r.Class("LStripBlocks")
 	}
 	if len(cs.Files) > 1 {
-		r.Class("with-include")
+		r.Class("with-include-or-parent")
+	}
+	if _, ok := cs.Files["/base.tpl"]; ok {
+		r.Class("hierarchy")
 	}
 	if removed > 0 && survived > 0 {
 		r.NonTrivial(fmt.Sprintf("%v|%v|%v|%d", marked, cs.Trim, cs.LStrip, cs.Variant))
@@ -274,7 +277,21 @@ var _ = register(&propSpec{
 	Gen: func(t *rapid.T) any {
 		g := &c15Gen{t: t, files: map[string][]c15Tok{}}
 		var root []c15Tok
-		g.seq(3, &root)
+		if drawInt(t, 0, 3, "hierarchy") == 0 {
+			// a two-level hierarchy: the options and markers apply to the parent's document as well
+			var base []c15Tok
+			g.seq(2, &base)
+			base = append(base, g.tag("tag", "block main"))
+			g.seq(1, &base)
+			base = append(base, g.tag("tag", "endblock"))
+			g.seq(2, &base)
+			g.files["/base.tpl"] = base
+			root = append(root, g.tag("tag", `extends "/base.tpl"`), g.tag("tag", "block main"))
+			g.seq(3, &root)
+			root = append(root, g.tag("tag", "endblock"))
+		} else {
+			g.seq(3, &root)
+		}
 		g.files["/root.tpl"] = root
 		return &c15Case{Files: g.files, Trim: drawBool(t, "trim"), LStrip: drawBool(t, "lstrip"), Variant: drawInt(t, 0, 11, "variant")}
 	},
